@@ -88,12 +88,22 @@ def simulator_timestep_wiring(ctx, sim_kind, shape):
         sim.buffer_scalar_field = ctx.array("buf", shape)
     else:
         sim.velocity_field[...] = u
+    state_name = "primary_field" if sim_kind == "passive" else "vorticity_field"
+    st = ctx.array("state", getattr(sim, state_name).shape)
+    if ctx.sym:
+        setattr(sim, state_name, st)
+    else:
+        getattr(sim, state_name)[...] = st
+    st0, u_before = st.copy(), u.copy()
 
     def run():
         a = sim.compute_stable_timestep(dt_prefac=pre)
         b = mod.compute_advection_diffusion_stable_timestep(velocity_field=u.copy(), velocity_magnitude_field=(ctx.array("buf2", shape) if ctx.sym else np.zeros(shape, dtype=ctx.real_t)),
                                                             grid_dim=dim, dx=sim.dx, cfl=cfl, kinematic_viscosity=nu, real_t=sim.real_t)
         ctx.eq("dt(prefac)=prefac*dt(1)", a, pre * b)
+        # asking for the time step is a query: the flow state is not touched (only the scratch buffer is used)
+        ctx.same_array("velocity_untouched_by_the_query", sim.velocity_field, u_before)
+        ctx.same_array("state_untouched_by_the_query", getattr(sim, state_name), st0)
         return a
 
     explore(ctx, run)
